@@ -379,7 +379,9 @@ where
         let (new_laidx, n_pstack) =
             self.parser
                 .lr_cactus(None, laidx, laidx + 1, n.pstack.clone(), &mut None);
-        if n.pstack != n_pstack {
+        // A lexeme may have been consumed even if reductions followed by the shift bring the stack
+        // back to a value equal to the one we started from: that is still progress.
+        if n.pstack != n_pstack || new_laidx > laidx {
             let n_repairs = if new_laidx > laidx {
                 n.repairs.child(RepairMerge::Repair(Repair::Shift))
             } else {
